@@ -3039,10 +3039,8 @@ func (bc *Blockchain) CalculateAttributesFee(tx *transaction.Transaction) int64 
 		case transaction.ConflictsT:
 			feeSum += base * int64(len(tx.Signers))
 		case transaction.NotaryAssistedT:
-			if bc.P2PSigExtensionsEnabled() {
-				na := attr.Value.(*transaction.NotaryAssisted)
-				feeSum += base * (int64(na.NKeys) + 1)
-			}
+			na := attr.Value.(*transaction.NotaryAssisted)
+			feeSum += base * (int64(na.NKeys) + 1)
 		default:
 			feeSum += base
 		}
